@@ -1,51 +1,8 @@
-(* Preservation of WaitEvProofs.Inv by the producers' events (Set, exchange, Sub(1), Set(): lock / notify / unlock). *)
+(* Preservation of WaitEvProofs.Inv by the producers' events, part 1 (Set, exchange, Sub(1)). *)
 From Coq Require Import List Arith Bool Lia.
 Import ListNotations.
 From YV Require model.Handoff proofs.HandoffProofs.
 From YV Require Import model.WaitEv proofs.WaitEvProofs.
-
-(* ---- preservation: producers ------------------------------------------------------------------ *)
-
-Ltac prelude P H i :=
-  simpl in H;
-  let f := fresh "f" in
-  destruct (nth_error (futs _) i) as [f|] eqn:Ef; [|discriminate];
-  destruct (P i f Ef) as [Hok Hpos];
-  destruct f as [w p sl rg rs]; simpl in H;
-  destruct p; try discriminate;
-  unfold fokb in Hok; simpl in Hok;
-  destruct w, sl, rg, rs; simpl in Hok; try discriminate Hok.
-
-(* the pointwise part when future i is replaced and the waiter did not move *)
-Ltac bsolve :=
-  simpl in *;
-  repeat match goal with
-         | |- context [Nat.ltb ?a ?b] => let E := fresh "E" in destruct (Nat.ltb a b) eqn:E; rewrite ?E in *; clear E; simpl in *
-         | |- context [Nat.leb ?a ?b] => let E := fresh "E" in destruct (Nat.leb a b) eqn:E; rewrite ?E in *; clear E; simpl in *
-         | H : context [Nat.ltb ?a ?b] |- _ => let E := fresh "E" in destruct (Nat.ltb a b) eqn:E; rewrite ?E in *; clear E; simpl in *
-         | H : context [Nat.leb ?a ?b] |- _ => let E := fresh "E" in destruct (Nat.leb a b) eqn:E; rewrite ?E in *; clear E; simpl in *
-         | b : bool |- _ => destruct b; simpl in *
-         end;
-  try assumption; try discriminate; try reflexivity.
-
-Ltac pw_prod P :=
-  match goal with Ef : nth_error _ ?i = Some _ |- _ =>
-    eapply pw_set_nth with (1:=P) (2:=Ef); [reflexivity|reflexivity|..]; simpl;
-    [ unfold fokb; simpl; try reflexivity; try assumption
-    | unfold posb, cleanb in *; simpl in *; destruct (wp _); simpl in *; try assumption; try discriminate;
-      try (destruct (ret _); simpl in *; try assumption; try discriminate); bsolve
-    | auto ]
-  end.
-
-Ltac glob_prod P G :=
-  match type of P with PW ?s => pose proof (reg_split_s s P) as Hsplit; pose proof (count_le_length isA (futs s)) as HleA;
-     pose proof (count_le_length freg (futs s)) as HleR end;
-  unf; simpl; rewrite ?set_nth_length;
-  match goal with Ef : nth_error _ ?i = Some ?f |- context [set_nth ?i ?f' _] => recounts i f' f Ef end;
-  destruct G as (G1&G2&G3&G4&G5&G6&G7&G8&G9&G10&G11&G12&G13&G14&G15&GK).
-
-Ltac by_cases s :=
-  bounds s; destruct (wp s) eqn:Ewp; simpl in *; dests; try (exfalso; lia); splits; fin.
 
 Lemma inv_step_set s i r s' : Inv s -> step s (ESet i r) = Some s' -> Inv s'.
 Proof.
@@ -69,12 +26,6 @@ Proof.
   all: by_cases s.
 Qed.
 
-Ltac ltb_facts :=
-  repeat match goal with
-         | H : context [Nat.ltb ?a ?b] |- _ => destruct (Nat.ltb_spec a b)
-         | |- context [Nat.ltb ?a ?b] => destruct (Nat.ltb_spec a b)
-         end.
-
 Lemma inv_step_subp s i new s' : Inv s -> step s (ESubP i new) = Some s' -> Inv s'.
 Proof.
   intros [P G] H. prelude P H i.
@@ -86,33 +37,3 @@ Proof.
   all: by_cases s.
 Qed.
 
-Ltac mtx_cases s H :=
-  unfold is_free, holds in H; destruct (mtx s) as [[|?k]|] eqn:Em; simpl in H; try discriminate H;
-  try match type of H with context [Nat.eqb ?a ?b] => destruct (Nat.eqb a b) eqn:?; simpl in H; try discriminate H end.
-
-Lemma inv_step_plock s i s' : Inv s -> step s (EPLock i) = Some s' -> Inv s'.
-Proof.
-  intros [P G] H. prelude P H i. mtx_cases s H.
-  all: inversion H; subst s'; clear H; split; [pw_prod P|].
-  all: glob_prod P G.
-  all: rewrite Em in *; unfold touch; destruct (alive s) eqn:Ea; simpl in *; try discriminate.
-  all: by_cases s.
-Qed.
-
-Lemma inv_step_pnotify s i s' : Inv s -> step s (EPNotify i) = Some s' -> Inv s'.
-Proof.
-  intros [P G] H. prelude P H i. mtx_cases s H.
-  all: inversion H; subst s'; clear H; split; [pw_prod P|].
-  all: glob_prod P G.
-  all: rewrite Em in *; unfold touch; destruct (alive s) eqn:Ea; simpl in *; try discriminate.
-  all: by_cases s.
-Qed.
-
-Lemma inv_step_punlock s i s' : Inv s -> step s (EPUnlock i) = Some s' -> Inv s'.
-Proof.
-  intros [P G] H. prelude P H i. mtx_cases s H.
-  all: inversion H; subst s'; clear H; split; [pw_prod P|].
-  all: glob_prod P G.
-  all: rewrite Em in *; unfold touch; destruct (alive s) eqn:Ea; simpl in *; try discriminate.
-  all: by_cases s.
-Qed.
